@@ -8,9 +8,12 @@ pub mod c01;
 pub mod c03;
 pub mod c04;
 pub mod c05;
+pub mod c06;
 pub mod c09;
 pub mod c11;
+pub mod c12;
 pub mod c14;
+pub mod c19;
 pub mod pad;
 pub mod mux;
 
@@ -49,6 +52,21 @@ pub fn dispatch(prop: &str, ctx: Ctx, replay: Option<&str>) -> i32 {
             crate::run::start_watchdog(std::time::Duration::from_secs(240), None);
             let rep = c14::run(ctx);
             finish(rep, c14::meta(), ctx.tier, ctx.seed, started)
+        }
+        "C12" => {
+            crate::run::start_watchdog(std::time::Duration::from_secs(240), None);
+            let rep = c12::run_pool_level(ctx);
+            finish(rep, c12::meta(), ctx.tier, ctx.seed, started)
+        }
+        "C06" => {
+            crate::run::start_watchdog(std::time::Duration::from_secs(240), None);
+            let rep = c06::run(ctx);
+            finish(rep, c06::meta(), ctx.tier, ctx.seed, started)
+        }
+        "C19" => {
+            crate::run::start_watchdog(std::time::Duration::from_secs(240), None);
+            let rep = c19::run_session_level(ctx);
+            finish(rep, c19::meta(), ctx.tier, ctx.seed, started)
         }
         "C03" => {
             let mut rep = Report::new("C03");
@@ -131,6 +149,7 @@ pub fn replay_file(prop: &str, path: &str) -> i32 {
 /// entry point for helper sub-processes (`mon child <what> ...`)
 pub fn child_main(args: &[String]) -> i32 {
     match args.first().map(|s| s.as_str()) {
+        Some("c19") => c19::child(args.get(1).map(|s| s.as_str()).unwrap_or("")),
         Some("pad-huge") => c04::child_huge(args.get(1).and_then(|s| s.parse().ok()).unwrap_or(1)),
         _ => {
             eprintln!("unknown child command");
